@@ -69,9 +69,41 @@ def check(ctx):
     ctx.guard("C10.d NO-ARG-MUTATION", "detectors", lambda: check_detector_mutation(ctx))
     ctx.guard("C10.e UPDATE-IS-REFIT", "update", lambda: check_update(ctx, det_base))
     ctx.guard("C10.f OWNED-FITTED-STATE", "anomaliser", lambda: owned_fitted_state(ctx))
+    ctx.guard("C10.e UPDATE-IS-REFIT", "fit_predict", lambda: fit_then(ctx, det_base))
     ctx.guard("C10.a HP-FROZEN", "derived-scorers", lambda: derived_alias(ctx))
     ctx.expect_min("C10.a HP-FROZEN", sum(1 for o in ctx.obs if o.rule == "C10.a HP-FROZEN" and o.status == "HOLDS"), 15)
     ctx.expect_min("C10.b REFIT-BEFORE-EVALUATE", sum(1 for o in ctx.obs if o.rule == "C10.b REFIT-BEFORE-EVALUATE" and o.status == "HOLDS"), 6)
+
+
+def fit_then(ctx, det_base):
+    """fit_predict(X, y) and fit_transform(X, y) are fit(X, y) followed by predict(X) / transform(X) on the same object:
+    the convenience entry points give what the two-step history gives (syntactic: one return statement each)."""
+    rule = "C10.e UPDATE-IS-REFIT"
+    for name, then in (("fit_predict", "predict"), ("fit_transform", "transform")):
+        f = ctx.P.lookup_method(det_base, name)
+        if f is None:
+            ctx.undecided(rule, name, det_base.module.relpath, f"{name} not found")
+            continue
+        sn = self_name(f)
+        params = [a.arg for a in f.node.args.args][1:]
+        fits = [n for n in ast.walk(f.node) if isinstance(n, ast.Call) and isinstance(n.func, ast.Attribute) and n.func.attr == "fit" and isinstance(n.func.value, ast.Name) and n.func.value.id == sn]
+        thens = [n.value for n in ast.walk(f.node) if isinstance(n, ast.Return) and isinstance(n.value, ast.Call) and isinstance(n.value.func, ast.Attribute) and n.value.func.attr == then]
+        if len(fits) != 1 or len(thens) != 1:
+            ctx.undecided(rule, name, f.loc(), f"{name} is not one self.fit(...) followed by one returned .{then}(...) ({len(fits)} fits, {len(thens)} returns)")
+            continue
+        fa = [ast.unparse(a_) for a_ in fits[0].args] + [f"{k.arg}={ast.unparse(k.value)}" for k in fits[0].keywords]
+        ta = [ast.unparse(a_) for a_ in thens[0].args] + [f"{k.arg}={ast.unparse(k.value)}" for k in thens[0].keywords]
+        found = f"self.fit({', '.join(fa)}) ... .{then}({', '.join(ta)})"
+        okf = fa in (["X", "y"], ["X", "y=y"], ["X=X", "y=y"], ["X"], ["X=X"])
+        okt = ta in (["X"], ["X=X"])
+        # the fit precedes the returned call
+        okorder = (fits[0].lineno, fits[0].col_offset) <= (thens[0].lineno, thens[0].col_offset) or any(x is fits[0] for x in ast.walk(thens[0]))
+        ok = okf and okt and okorder
+        ctx.check(ok, rule, name, f.loc(), f"{name}(X, y) == fit(X, y).{then}(X)", found=found, expected=f"self.fit(X, y).{then}(X)")
+        # no detector overrides the convenience entry points
+        for c in ctx.P.subclasses(det_base, strict=True):
+            if name in c.methods:
+                ctx.violation(rule, f"{c.name}|{name}-override", c.methods[name].loc(), f"a detector overrides {name}(): it may differ from fit followed by {then}")
 
 
 def derived_alias(ctx):
